@@ -28,7 +28,8 @@ simple("C06", "model_checking",
        "14-label sub-menu) over a menu of 22 WHOLE labels (valid ACE labels incl. R and AL ones, ACE labels rejected each for a different reason - "
        "ASCII-only decode, non-NFC decode, invalid digit, leading mark, mapped decode, xn-- decode, disallowed decode, Bidi-breaking decode -, "
        "upper-case ACE, plain ASCII, raw non-ASCII, empty label) through to_ascii, to_unicode, parse and set_hostname: state carried from one "
-       "label to the next; (5) hostname of parse(\"https://<domain>/\") and set_hostname, both "
+       "label to the next; plus a position sweep (0..70 ASCII padding bytes, dotted or <=40 inside the label, before / between / after 8 kinds of "
+       "non-ASCII material: 2,688 domains); (5) hostname of parse(\"https://<domain>/\") and set_hostname, both "
        "URL types, raw and percent-encoded, vs refurl; (6) per-code-point table audits through is_label_valid verdicts on probe labels and normalize() output on mark pairs: "
        "combining marks, virama, joining types, canonical combining class vs Unicode 17, Bidi class vs Unicode 15.1 on 15.1-assigned code "
        "points; (7) IdnaTestV2.json + toascii.json vectors. states = distinct results, transitions = evaluations, every evaluation is one "
@@ -54,7 +55,9 @@ simple("C16", "exploration",
        "each of the four dots <-> the others, each ignored code point U+00AD U+200B U+FE0F U+E0100 inserted at every position, and the closure "
        "(<=48 members) under local canonical rewrites between IDNA-valid code points (decompose one character, compose an adjacent pair, swap "
        "adjacent marks of different non-zero class, NFD, NFC), and the same for every 2-label (quick: + 3 over 14 labels; thorough: 2-3 over all 22) "
-       "sequence of C06's whole-label menu; every member must give the same to_ascii result as x or fail with it, and the "
+       "sequence of C06's whole-label menu, and for a position sweep of 2,688 domains (0..70 ASCII padding bytes before / between / after a "
+       "precomposed or decomposed letter, a fullwidth letter, an ideographic stop, an upper-case non-ASCII letter, a soft hyphen, a 3- and a "
+       "4-byte code point; block/alignment dependence of the transcoder); a mapped code point <-> its mapping is a further generator; every member must give the same to_ascii result as x or fail with it, and the "
        "same hostname through ada::parse; to_ascii(to_ascii(x)) = to_ascii(x); to_ascii(to_unicode(to_ascii(x))) = to_ascii(x) for non-ASCII x; "
        "results lower-case ASCII; non-trivial = x accepted; distinct = distinct results",
        ["oracle: metamorphic (the library against itself); refidna is used only as a filter: a pair is judged only when UTS #46 itself gives both "
